@@ -3,6 +3,8 @@ CONSTANT MaxB = 40
 CONSTANT MaxMinP = 5
 CONSTANT MaxGases <- McMaxGases
 CONSTANT MaxBlocks = 3
+CONSTANT GovFull = FALSE
+CONSTANT EndOrder = "gov-then-fee"
 CONSTANT UnlimitedUsed = 12
 INVARIANT NonNeg
 INVARIANT AtLeastMinAfterFirst
@@ -13,4 +15,5 @@ PROPERTY UpAtMostEighthPlusOne
 PROPERTY DownBounded
 PROPERTY Monotone
 PROPERTY NextOkExact
+PROPERTY GovThenFee
 CHECK_DEADLOCK FALSE
